@@ -406,6 +406,10 @@ class PE:
             return len(v) > 0
         if isinstance(v, P) and v.is_const():
             return v.const_value() != 0
+        if isinstance(v, P) and len(v.t) == 1 and not isinstance(e, (ast.Compare, ast.Call)):
+            (m, c), = v.t.items()
+            if c == 1 and len(m) == 1 and m[0][1] == 1:
+                return self.decide(self.atom_text(m[0][0]))        # the truth of a symbolic flag, however the expression reaches it (`affine`, `self.affine`)
         return self.decide(self.test_text(e, env, func, depth))
 
     def test_text(self, e, env, func, depth):
